@@ -30,3 +30,12 @@ def register_all(prop):
                "refused work connection, table snapshot after == before, bystander tunnel answers from legitimate sessions only. non-trivial = "
                ">=1 refused and >=1 accepted operation, or always_auth_pass claimed, or a scope-protected message; distinct = distinct case."),
          assumptions=["ssh gateway path: not exercised in this check (see DESIGN.md)", "heartbeat-timeout consequence of invalid pings is decided in C14"])
+    prop("C09", qshards=8, tshards=16, qlimit=480, tlimit=3000,
+         rule=("manager_model: action sequences (acquire name/port in {0, in range, outside, negative, >65535}, release, squat/unsquat by the harness) "
+               "on ports.Manager over a leased real range of 1..6 ports, tcp and udp, against a reference allocator; the harness binds every granted "
+               "port as the proxy code does. server_histories: 1..3 scripted sessions issue tcp/udp NewProxy (fixed / 0 / invalid ports, grouped or "
+               "not), CloseProxy, duplicate names and session drops against allowPorts of 3..8 ports, maxPortsPerClient 0..3 and harness squatters; "
+               "oracle = reference allocator + truthfulness (dialling the reported address reaches exactly that proxy) + OS view == model == "
+               "server accounting (hook). non-trivial = history with a refusal and a re-acquisition after release, or a port-0 request by a name "
+               "that held a port before; distinct = distinct case."),
+         assumptions=["127.0.0.1 only", "port-0 failure is accepted when the bounded probing (5 tries) could have hit only squatted ports"])
